@@ -55,6 +55,9 @@ def main():
             a = agg.setdefault(kid, {"property": e["property"], "key": e["key"], "n": 0, "idx": [], "detail": e["detail"],
                                      "serial": d.get("mode", "serial") == "serial"})
             a["n"] += e["n"]
+            a.setdefault("modes", set()).add(d.get("mode", "serial"))
+            if d.get("mode") == "boundary":
+                a.setdefault("contexts", set()).update(c for c in e.get("classes", {}) if str(c).startswith("boundary:"))
             if d.get("mode", "serial") == "serial":
                 a["idx"] = (a["idx"] + e["idx"])[:5]
             else:
@@ -84,13 +87,23 @@ def main():
         else:
             unexpected.append(a)
             continue
-        ent = {"status": "known", "property": prop, "key": key, "what": what, "audit_count": a["n"]}
-        if a.get("seen_in"):
-            ent["seen_in"] = sorted(a["seen_in"])
-        if a["idx"]:
-            ent["probe"] = a["idx"][0]
-        findings.append(ent)
-        if prop in ("C01", "C02"):      # the same mechanism seen through C11's result oracles in thread/process mode
+        ents = []
+        if a.get("modes") == {"boundary"}:
+            # seen only on boundary-battery cases: one entry per parameter that was at the edge
+            for ctx in sorted(a.get("contexts", [])):
+                ents.append({"status": "known", "property": prop, "key": {**key, "context": ctx},
+                             "what": what + f" [only with the configuration parameter '{ctx.split(':', 1)[1]}' at the edge of its accepted range]",
+                             "audit_count": a["n"], "seen_in": ["boundary"]})
+        else:
+            ent = {"status": "known", "property": prop, "key": key, "what": what, "audit_count": a["n"]}
+            if a.get("seen_in"):
+                ent["seen_in"] = sorted(a["seen_in"])
+            if a["idx"]:
+                ent["probe"] = a["idx"][0]
+            ents.append(ent)
+        findings.extend(ents)
+        ent = ents[0] if ents else {"key": key}
+        if prop in ("C01", "C02") and "context" not in ent["key"]:      # the same mechanism seen through C11's result oracles in thread/process mode
             k2 = dict(key)
             k2["kind"] = f"{prop}:{key['kind']}"
             findings.append({"status": "known", "property": "C11", "key": k2, "what": what + " [same defect observed in thread/process mode]"})
